@@ -461,6 +461,10 @@ def gen_routing(repo=None):
     out.append(';\n'.join(array_entries(repo) + forwarded_entries(repo)))
     out.append('].')
     out.append('')
+    out.append('Definition finite_routing : list centry := [')
+    out.append(';\n'.join(finite_entries(repo)))
+    out.append('].')
+    out.append('')
     out.append(f'Definition n_methods_1d : Z := {count[False]}.')
     out.append(f'Definition n_methods_2d : Z := {count[True]}.')
     return '\n'.join(out) + '\n'
@@ -602,6 +606,39 @@ def forwarded_entries(repo):
             out.append(f'  {{| a_two_d := false; a_module := "optimizers"; a_fn := "optimize_extended_range"; '
                        f'a_arg := "{FORWARD_EXPR}"; a_events := [{"; ".join(ev)}] |}}')
     return out
+
+
+# ------------------------------------------------------------------------------------------------
+# check_finite forwarding: every validation call in the wrappers (_register.inner), the _setup_* methods
+# and the registered methods must carry check_finite=self._check_finite (in __init__: =check_finite).
+FINITE_CALLEES = ('_check_array', '_check_sized_array', '_check_optional_array', '_yx_arrays', '_yxz_arrays')
+
+
+def finite_entries(repo):
+    entries = []
+    for two_d in (False, True):
+        rels = [(f'pybaselines/{"two_d/" if two_d else ""}_algorithm_setup.py', '_algorithm_setup')]
+        rels += [(f'pybaselines/{"two_d/" if two_d else ""}{m}.py', m) for m in (MODS_2D if two_d else MODS_1D)]
+        for rel, mod in rels:
+            tree, _ = _parse(rel, repo)
+            for cnode in tree.body:
+                if not isinstance(cnode, ast.ClassDef):
+                    continue
+                for fn in cnode.body:
+                    if not isinstance(fn, ast.FunctionDef):
+                        continue
+                    if mod == '_algorithm_setup' and not (fn.name in ('_register', '__init__')
+                                                          or fn.name.startswith('_setup_')):
+                        continue
+                    want = 'check_finite' if fn.name == '__init__' else 'self._check_finite'
+                    for node in ast.walk(fn):      # includes the nested `inner` of _register
+                        if isinstance(node, ast.Call) and isinstance(node.func, ast.Name) \
+                                and node.func.id in FINITE_CALLEES:
+                            fwd = any(kw.arg == 'check_finite' and ast.unparse(kw.value) == want
+                                      for kw in node.keywords)
+                            entries.append(f'  {{| c_two_d := {_b(two_d)}; c_module := "{mod}"; c_fn := "{fn.name}"; '
+                                           f'c_callee := "{node.func.id}"; c_forwarded := {_b(fwd)} |}}')
+    return entries
 
 
 GENERATORS = {'GenRouting': gen_routing}
